@@ -1215,7 +1215,7 @@ func c3Slices(c *Ctx) {
 			q := app.Call.Method.Type().(*types.Signature).Params().At(0).Type()
 			arg := app.Call.Args[0]
 			d := Desc(arg)
-			recvN := fn.Params[0].Name()
+			recvN := PN(fn.Params[0])
 			direct := strings.HasPrefix(d, recvN+"[") && !strings.Contains(d, "conv[")
 			// generic ~string element: a string(x) conversion to the identical underlying type is value preserving
 			if cv, ok := arg.(*ssa.Convert); ok && types.Identical(cv.X.Type().Underlying(), cv.Type().Underlying()) {
@@ -1283,7 +1283,7 @@ func c3Time(c *Ctx) {
 	tf, _ := c.ConstVal(CorePath, "TimeFullType")
 	_ = field
 	// Path exploration: which form is returned after which outcome of the two range tests
-	vn := fn.Params[1].Name()
+	vn := PN(fn.Params[1])
 	seqs, trunc := ConcPaths(fn, ConcCfg{
 		Event: func(in ssa.Instruction, st *ConcState) string {
 			r, ok := in.(*ssa.Return)
@@ -1458,7 +1458,7 @@ func c3Equals(c *Ctx, byType map[string][]fieldLit) {
 	if !c.Anchor("R3.7", "zapcore.Field.Equals", fn != nil && ftNamed != nil) {
 		return
 	}
-	rn := fn.Params[0].Name()
+	rn := PN(fn.Params[0])
 	isDanger := func(t types.Type) bool {
 		if t == nil {
 			return false
